@@ -3,10 +3,12 @@ package checks
 import (
 	"fmt"
 	"strings"
+	"sync"
 	"time"
 
 	"verifharness/ev"
 	"verifharness/refbmc"
+	"verifharness/refcodec"
 
 	"github.com/gebn/bmc/pkg/dcmi"
 	"github.com/gebn/bmc/pkg/ipmi"
@@ -30,6 +32,9 @@ func init() {
 			for _, k := range []string{"bcd", "analog", "tenbit", "fourbit", "checksum-ser", "checksum-dec", "bcdplus", "sixbit", "latin1", "period-dec", "instance"} {
 				cs = append(cs, ev.MkCase(k, map[string]int{}))
 			}
+			// the conversions are plain functions of their input, shared by every connection of a
+			// process: the same definitions must hold when many goroutines convert at once
+			cs = append(cs, ev.MkCase("concurrent", map[string]int{"goroutines": 16, "rounds": 3000, "seed": int(seed)}))
 			// durations split into 64 day-sized chunks (+1 for the saturating tail)
 			for d := 0; d <= 65; d++ {
 				cs = append(cs, ev.MkCase("period-enc", map[string]int{"day": d}))
@@ -75,6 +80,7 @@ func c20Exec(run *ev.Run, c ev.Case) {
 		"instance":     "0x5f system-relative, 0x60 device-relative",
 	}
 	run.Event("domains-enumerated", 1)
+	reused := &ipmi.FullSensorRecord{} // one record layer for the whole domain, as a packet parser keeps it
 	run.Sample(c.Kind, map[string]any{"domain": c.Kind, "example": examples[c.Kind], "params": string(c.P)})
 	switch c.Kind {
 	case "bcd":
@@ -315,7 +321,7 @@ func c20Exec(run *ev.Run, c ev.Case) {
 						viol("bcdplus-at-end-of-data", fmt.Sprintf("BCD-plus %d chars from exactly % x: got %q consumed %d err %v, want %q", n, b[:len(b)-1], got, consumed, err, want), nil)
 					}
 					if nib == 0 || pos == n-1 {
-						c20Record(viol, 1, n, b[:len(b)-1], want)
+						c20Record(viol, reused, 1, n, b[:len(b)-1], want)
 					}
 				}
 			}
@@ -362,7 +368,7 @@ func c20Exec(run *ev.Run, c ev.Case) {
 						viol("sixbit-at-end-of-data", fmt.Sprintf("6-bit packed %d chars from exactly % x: got %q consumed %d err %v, want %q", n, b[:len(b)-1], got, consumed, err, want), nil)
 					}
 					if code == 0 || pos == n-1 {
-						c20Record(viol, 2, n, b[:len(b)-1], want)
+						c20Record(viol, reused, 2, n, b[:len(b)-1], want)
 					}
 				}
 			}
@@ -409,6 +415,9 @@ func c20Exec(run *ev.Run, c ev.Case) {
 						for _, x := range b {
 							want += string(rune(x)) // Latin-1 code point = byte value
 						}
+						if v == 0x41 || v == 0xe9 || pos == n-1 {
+							c20Record(viol, reused, map[ipmi.StringEncoding]byte{ipmi.StringEncoding8BitAsciiLatin1: 3, ipmi.StringEncodingUnicode: 0}[enc], n, b, want)
+						}
 						in := append(append([]byte(nil), b...), 0x00, 0x00)[:n]
 						got, consumed, err := dec.Decode(in, n)
 						if err != nil || got != want || consumed != n {
@@ -424,6 +433,10 @@ func c20Exec(run *ev.Run, c ev.Case) {
 				}
 			}
 		}
+	case "concurrent":
+		var p map[string]int
+		c.Decode(&p)
+		c20Concurrent(run, viol, p["goroutines"], p["rounds"], int64(p["seed"]))
 	case "period-dec":
 		units := []time.Duration{time.Second, time.Minute, time.Hour, 24 * time.Hour}
 		for v := 0; v < 256; v++ {
@@ -521,9 +534,97 @@ func c20Exec(run *ev.Run, c ev.Case) {
 	}
 }
 
+// c20Concurrent has G goroutines convert at the same time, each its own
+// inputs (strings of all four encodings through the decoders and through Full
+// Sensor Records, BCD bytes, ten-bit and four-bit fields, analog formats,
+// period bytes, checksums): every result must be the definition's value for
+// that goroutine's input, whatever the others are converting.
+func c20Concurrent(run *ev.Run, viol func(string, string, any), g, rounds int, seed int64) {
+	alphabet := "0123456789 -.:,_"
+	decs := map[byte]ipmi.StringDecoder{}
+	for code, enc := range map[byte]ipmi.StringEncoding{0: ipmi.StringEncodingUnicode, 1: ipmi.StringEncodingBCDPlus, 2: ipmi.StringEncodingPacked6BitAscii, 3: ipmi.StringEncoding8BitAsciiLatin1} {
+		d, err := enc.Decoder()
+		if err != nil {
+			viol("concurrent-no-decoder", err.Error(), nil)
+			return
+		}
+		decs[code] = d
+	}
+	var wg sync.WaitGroup
+	var mu sync.Mutex
+	reported := map[string]bool{}
+	report := func(key, what string) {
+		mu.Lock()
+		first := !reported[key]
+		reported[key] = true
+		mu.Unlock()
+		if first {
+			viol(key, what, nil)
+		}
+	}
+	start := make(chan struct{})
+	for w := 0; w < g; w++ {
+		wg.Add(1)
+		go func(w int) {
+			defer wg.Done()
+			r := rng(seed+int64(w)*7919, "c20conc")
+			layer := &ipmi.FullSensorRecord{}
+			<-start
+			for i := 0; i < rounds; i++ {
+				enc := byte((i + w) % 4)
+				n := 2 + r.Intn(30)
+				chars := make([]rune, n)
+				for k := range chars {
+					switch enc {
+					case 1:
+						chars[k] = rune(alphabet[r.Intn(16)])
+					case 2:
+						chars[k] = rune(0x20 + r.Intn(64))
+					default:
+						chars[k] = rune(r.Intn(256))
+					}
+				}
+				want := string(chars)
+				tl, idb := refcodec.IDString(enc, chars)
+				got, consumed, err := decs[enc].Decode(exactCopy(idb), n)
+				if err != nil || got != want || consumed != len(idb) {
+					report(fmt.Sprintf("concurrent:string-decoder:%d", enc), fmt.Sprintf("goroutine %d of %d, round %d: ID string encoding %d of %d characters from % x decoded as %q (consumed %d, err %v) while other goroutines were decoding; its definition is %q", w, g, i, enc, n, idb, got, consumed, err, want))
+				}
+				rec := make([]byte, 43, 43+len(idb))
+				rec[0], rec[42] = 0x20, tl
+				m, b := r.Intn(1024), r.Intn(1024)
+				rexp, bexp := r.Intn(16), r.Intn(16)
+				rec[19], rec[20] = byte(m), byte(m>>8)<<6
+				rec[21], rec[22] = byte(b), byte(b>>8)<<6
+				rec[24] = byte(rexp)<<4 | byte(bexp)
+				rec = append(rec, idb...)
+				if err := layer.DecodeFromBytes(exactCopy(rec), gopacket.NilDecodeFeedback); err != nil || layer.Identity != want || int(layer.M) != twos(m, 10) || int(layer.B) != twos(b, 10) || int(layer.RExp) != twos(rexp, 4) || int(layer.BExp) != twos(bexp, 4) {
+					report(fmt.Sprintf("concurrent:record:%d", enc), fmt.Sprintf("goroutine %d of %d, round %d: Full Sensor Record % x decoded as Identity %q M %d B %d RExp %d BExp %d (err %v) while other goroutines were decoding; want %q %d %d %d %d", w, g, i, rec, layer.Identity, layer.M, layer.B, layer.RExp, layer.BExp, err, want, twos(m, 10), twos(b, 10), twos(rexp, 4), twos(bexp, 4)))
+				}
+				// a message with valid checksums decodes, with one checksum off by one it does not
+				body := rbytes(r, r.Intn(20))
+				msg := refbmc.BuildRsp(0x81, 0x07, 0, 0x20, byte(r.Intn(64)), 0, byte(r.Intn(256)), 0, body)
+				var ml ipmi.Message
+				if err := ml.DecodeFromBytes(exactCopy(msg), gopacket.NilDecodeFeedback); err != nil {
+					report("concurrent:checksum", fmt.Sprintf("goroutine %d round %d: message % x with valid checksums refused while other goroutines were decoding: %v", w, i, msg, err))
+				}
+				msg[len(msg)-1]++
+				if err := ml.DecodeFromBytes(exactCopy(msg), gopacket.NilDecodeFeedback); err == nil {
+					report("concurrent:checksum", fmt.Sprintf("goroutine %d round %d: message % x with a wrong second checksum accepted while other goroutines were decoding", w, i, msg))
+				}
+			}
+		}(w)
+	}
+	close(start)
+	wg.Wait()
+	run.Eval(g * rounds)
+	run.Nontrivial(fmt.Sprintf("concurrent:%d:%d", g, rounds))
+	run.Event("concurrent-conversions", g*rounds*4)
+}
+
 // c20Record decodes the ID string where it lives: at the end of a Full Sensor
 // Record that ends with it (type/length byte, then exactly the string's bytes).
-func c20Record(viol func(string, string, any), enc byte, chars int, idBytes []byte, want string) {
+func c20Record(viol func(string, string, any), reused *ipmi.FullSensorRecord, enc byte, chars int, idBytes []byte, want string) {
 	rec := make([]byte, 43, 43+len(idBytes))
 	rec[42] = enc<<6 | byte(chars)
 	rec = append(rec, idBytes...)
@@ -532,5 +633,18 @@ func c20Record(viol func(string, string, any), enc byte, chars int, idBytes []by
 	pv, _ := safe(func() { err = fsr.DecodeFromBytes(exactCopy(rec), gopacket.NilDecodeFeedback) })
 	if pv != nil || err != nil || fsr.Identity != want {
 		viol("id-string-in-record", fmt.Sprintf("Full Sensor Record ending with a %d-character ID string (encoding %d, bytes % x): Identity %q err %v panic %v, want %q", chars, enc, idBytes, fsr.Identity, err, pv, want), nil)
+	}
+	// the same record decoded into a layer that has decoded other records before, and the record
+	// with a zero-length ID string of the same encoding straight after it: a string's value is
+	// defined by its own bytes, not by what the layer held
+	pv, _ = safe(func() { err = reused.DecodeFromBytes(exactCopy(rec), gopacket.NilDecodeFeedback) })
+	if pv != nil || err != nil || reused.Identity != want {
+		viol("id-string-in-record-reused-layer", fmt.Sprintf("Full Sensor Record ending with a %d-character ID string (encoding %d, bytes % x) decoded into a used layer: Identity %q err %v panic %v, want %q", chars, enc, idBytes, reused.Identity, err, pv, want), nil)
+	}
+	empty := make([]byte, 43)
+	empty[42] = enc << 6
+	pv, _ = safe(func() { err = reused.DecodeFromBytes(exactCopy(empty), gopacket.NilDecodeFeedback) })
+	if pv != nil || err != nil || reused.Identity != "" {
+		viol("zero-length-id-string-in-record-reused-layer", fmt.Sprintf("Full Sensor Record with a zero-length ID string (encoding %d) decoded into a layer that held %q before: Identity %q err %v panic %v, want the empty string", enc, want, reused.Identity, err, pv), nil)
 	}
 }
